@@ -213,6 +213,11 @@ def spellings():
     for k, item in enumerate(['wire.Struct(new(os.LinkError), "*")', 'wire.Struct(new(os.LinkError), "Op", "Old")', "os.LinkError{}",
                               'wire.Struct(new(os.LinkError), "Op", "Err")']):
         add("foreigndup/%d" % k, inj("Init", "os.LinkError", "wire.Build(NewStr, %s)" % item))
+    # wire.InterfaceValue accepts function literals: identifiers without an object (blank, type-switch variable) inside them (D43)
+    add("ivalue-funclit/blank", inj("Init", "I", "wire.Build(wire.InterfaceValue(new(I), func() I { _ = 1; return nil }()))"))
+    add("ivalue-funclit/typeswitch", inj("Init", "I", "wire.Build(wire.InterfaceValue(new(I), func() I { var x interface{} = 1; "
+                                                     "switch y := x.(type) { case I: return y }; return nil }()))"))
+    add("ivalue-funclit/blank-param", inj("Init", "I", "wire.Build(wire.InterfaceValue(new(I), func(_ int) I { for _, _ = range []int{1} {}; return nil }(0)))"))
     # an exported alias of an unexported type of another package in the injector's signature (D41)
     add("aliashidden/result", inj("Init", "(zsets.Shown, error)", "wire.Build(zsets.NewShown)"))
     add("aliashidden/param", "func Init(x []zsets.Shown) int {\n\tpanic(wire.Build(NewInt))\n}\n")
